@@ -60,7 +60,7 @@ def claimed_properties():
     return sorted(seen)
 
 
-def L0(fn, props, harness=None, loop=False, replace=(), defines=(), expect=(), label='unbounded', timeout=600, replay=None, jid=None, cbmc_flags=(), tiers=('quick', 'thorough')):
+def L0(fn, props, harness=None, loop=False, replace=(), defines=(), expect=(), label='unbounded', timeout=1800, replay=None, jid=None, cbmc_flags=(), tiers=('quick', 'thorough')):
     exp = list(expect)
     if loop:
         exp += ['loop_invariant_base', 'loop_invariant_step', 'loop_decreases']
@@ -164,6 +164,9 @@ def jobs(tier):
                       'label': 'unbounded' if numeric else 'bounded', 'timeout': 900, 'replay': None,
                       'cbmc_flags': ['--unwind', str(cap + 2), '--unwinding-assertions'], 'tiers': ['quick', 'thorough'],
                       'shape': ('all bit patterns of all three widths; text loops bounded by the text width, unwinding assertions on (complete)' if numeric else 'data_size <= %d (BOUNDED stand-in), all byte contents' % ds) + '; capacity %d' % cap})
+    J.append({'id': 'L2.string_fills_data_size', 'props': ['C03', 'C07'], 'harness': 'l2_roundtrip.c', 'dfcc': False, 'function': 'format_buffer_string', 'replace': [], 'loop_contracts': False,
+              'defines': ['RT_TYPE=CAT_VAR_BUF_STRING', 'RT_DS=4', 'RT_CAP=24', 'RT_UNTERMINATED'], 'expect': [], 'label': 'bounded', 'timeout': 900, 'replay': None,
+              'cbmc_flags': ['--unwind', '26', '--unwinding-assertions'], 'tiers': ['quick', 'thorough'], 'shape': 'data_size <= 4 (BOUNDED stand-in), storage object of exactly data_size bytes, both machines; capacity 24'})
     for fn, props, repl in (('to_upper', ['C02', 'C03'], []), ('is_valid_cmd_name_char', ['C02', 'C03'], []), ('is_valid_dec_char', ['C04', 'C03'], []),
                             ('is_valid_hex_char', ['C04', 'C05', 'C03'], []), ('convert_hex_char_to_value', ['C04', 'C05', 'C03'], []),
                             ('get_cmd_state', ['C02', 'C09', 'C03'], ['is_command_disable']), ('set_cmd_state', ['C02', 'C03'], []),
